@@ -111,7 +111,7 @@ for pid in sorted(P):
             'engine': 'gots-runtime-monitors',
             'level_claimed': {'category': level, 'text': text + COMMON, 'design_ref': 'DESIGN.md section ' + ref},
             'level_note': note,
-            'technique': tech + '; results of earlier calls re-checked after later calls; the same calls made from 8 goroutines on objects of their own, each result compared with the reference',
+            'technique': tech + '; results of earlier calls re-checked after later calls; the same calls made from 8 goroutines on objects of their own, each result compared with the reference; the concurrent workloads once more in a worker built with go build -race (every report of the race detector is a violation)',
         })
 
 m = {
